@@ -276,6 +276,20 @@ def check(run: Run) -> None:
                 if arg.id in params:
                     idx = params.index(arg.id)
                     sites = [(c2, n2) for c2 in m.functions.values() for n2 in walk_no_nested(c2.node) if isinstance(n2, ast.Call) and isinstance(n2.func, ast.Name) and n2.func.id == fn.name and c2 is not fn]
+                    # ... and calls through a dispatch table: `for name, render in TABLE: ... render(x)` where a row of the
+                    # module-level TABLE holds this function at the position of `render`
+                    for c2 in m.functions.values():
+                        for lp in walk_no_nested(c2.node):
+                            if isinstance(lp, ast.For) and isinstance(lp.iter, ast.Name) and m.has_const(lp.iter.id) and isinstance(lp.target, ast.Tuple):
+                                try:
+                                    table = m.const_node(lp.iter.id)
+                                except Exception:
+                                    continue
+                                if not isinstance(table, (ast.Tuple, ast.List)):
+                                    continue
+                                for i, t in enumerate(lp.target.elts):
+                                    if isinstance(t, ast.Name) and any(isinstance(r, ast.Tuple) and i < len(r.elts) and is_name(r.elts[i], fn.name) for r in table.elts):
+                                        sites += [(c2, n2) for b in lp.body for n2 in ast.walk(b) if isinstance(n2, ast.Call) and is_name(n2.func, t.id)]
                     return bool(sites) and all(is_projected(c2, (n2.args[idx] if idx < len(n2.args) else next((k.value for k in n2.keywords if k.arg == arg.id), ast.Constant(None))), depth + 1) for c2, n2 in sites)
                 # local bound from <res>.filtered_doc
                 binds = [a.value for a in walk_no_nested(fn.node) if isinstance(a, ast.Assign) and any(is_name(t, arg.id) for t in a.targets)]
